@@ -51,12 +51,23 @@ class FS(object):
         self.oplog = None        # optional list of (ordinal, kind, path) for tracing
         self.cost = 5e-5
         self.on_mutate = None    # callback(fs, kind, path) after each applied op
+        self.in_child = False    # the op being applied belongs to an emulated fork child
 
     def snapshot(self):
         return dict((k, bytes(v)) for k, v in self.files.items())
 
     def restore(self, image):
-        self.files = dict((k, bytearray(v)) for k, v in image.items())
+        # in place: an orphaned fork child keeps writing through its open handle (same 'inode')
+        old = self.files
+        new = {}
+        for k, v in image.items():
+            b = old.get(k)
+            if b is None:
+                b = bytearray(v)
+            else:
+                b[:] = v
+            new[k] = b
+        self.files = new
         self.fds = {}
         self.kill_at = None
         self.image = None
@@ -70,6 +81,9 @@ class FS(object):
         if self.capture is not None:
             # emulated fork child: record, do not touch the parent's disk
             self.capture.append((kind, path, fn))
+            return
+        if self.in_child:
+            fn()
             return
         self.ops += 1
         if self.oplog is not None:
@@ -307,6 +321,11 @@ def _exit(code):
     raise ChildExit(code)
 
 
+def _kill(pid, sig):
+    w = CTX.world
+    return w.hosts[w.cur].forkemu.kill(pid, sig)
+
+
 class ForkEmu(object):
     """Emulated fork for Serializer.serialize: the wrapper in install_seams runs the
     real method twice (child pass with fork()==0 in FS capture mode, then parent
@@ -323,10 +342,26 @@ class ForkEmu(object):
     def fork(self):
         return 0 if self.mode == 'child' else self.cur_pid
 
+    def kill(self, pid, sig):
+        ch = self.children.get(pid)
+        if ch is None:
+            raise ProcessLookupError(errno.ESRCH, 'No such process')
+        ch['ops'] = []
+        ch['status'] = sig
+        w = CTX.world
+        if w is not None:
+            w.probe('fork_child_killed_by_parent')
+
     def waitpid(self, pid, flags):
         ch = self.children.get(pid)
         if ch is None:
             raise ChildProcessError(errno.ECHILD, 'No child processes')
+        if ch['ops'] and not flags:
+            # blocking wait: the child runs to its end
+            w = CTX.world
+            fs = w.hosts[self.host].fs
+            while self.child_step(fs, pid):
+                pass
         if ch['ops']:
             return (0, 0)
         del self.children[pid]
@@ -340,7 +375,12 @@ class ForkEmu(object):
         if ch is None or not ch['ops']:
             return False
         kind, path, fn = ch['ops'].pop(0)
-        fs.mutate(kind, path, fn)
+        # the child is a process of its own: its storage ops are not kill points of the parent
+        fs.in_child = True
+        try:
+            fs.mutate(kind, path, fn)
+        finally:
+            fs.in_child = False
         return True
 
 
@@ -352,6 +392,7 @@ def install_seams(jr, sr, so):
     osm.fork = _fork
     osm.waitpid = _waitpid
     osm._exit = _exit
+    osm.kill = _kill
     osm.WNOHANG = 1
     mm = types.ModuleType('simmmap')
     mm.mmap = lambda fileno, length: SimMmap(_fs(), fileno, length)
@@ -375,6 +416,8 @@ def install_seams(jr, sr, so):
         from .boot import priv
         w = CTX.world
         host = w.hosts[w.cur]
+        if host.doomed:
+            return        # the process died earlier in this event: it forks nothing any more
         use_fork = priv(self, 'Serializer', 'useFork')
         if not use_fork or priv(self, 'Serializer', 'fileName') is None or priv(self, 'Serializer', 'pid') != 0:
             return orig(self, data, id)
